@@ -532,6 +532,11 @@ func (p *Parser) evaluateValues(ctx context) (evaluatedValues, error) {
 			if returnValuesLength == 0 {
 				return evaluatedValues{}, p.expectedError(fmt.Sprintf(`return value from function "%s"`, funcName), exprToken)
 			}
+
+			// If other values precede, function must only return one value.
+			if returnValuesLength > 1 && len(expressions) > 1 {
+				return evaluatedValues{}, p.expectedError(fmt.Sprintf(`only one return value from function "%s"`, funcName), exprToken)
+			}
 		}
 		// Check if other values follow.
 		if nextToken.Type() != lexer.COMMA {
